@@ -257,7 +257,7 @@ func (g *gen) digits(n int) []byte {
 }
 
 func genTypes(c *Ctx) {
-	g := &gen{c: c, run: func(in Sx) { c.Emit(in, runTypes(in)) }}
+	g := &gen{c: c, run: func(in Sx) { c.Pending(in); c.Emit(in, runTypes(in)) }}
 	g.ints()
 	g.bools()
 	g.timestamps()
